@@ -52,16 +52,98 @@ def rewrite_text(text, r):
     return '\n'.join(out)
 
 
+# label/line-number naming: every statement that mentions a label, instantiated with many names (line 0 included)
+LABEL_TEMPLATES = [
+    "GOSUB {A}\nPRINT 1\nEND\n{A:}PRINT 2\nRETURN\n",
+    "GOSUB {A}\nPRINT 1\nEND\n{B:}PRINT 3\nEND\n{A:}PRINT 2\nRETURN {B}\n",
+    "DATA 1,2\n{A:}DATA 3,4\n{B:}DATA 5\nREAD x, y\nRESTORE {A}\nREAD z\nPRINT x; y; z\nRESTORE {B}\nREAD z\nPRINT z\nRESTORE\nREAD z\nPRINT z\n",
+    "DATA 1\n{A:}PRINT 7\n{B:}DATA 2\nDATA 3\nRESTORE {A}\nREAD z\nPRINT z\nRESTORE {B}\nREAD z\nPRINT z\n",
+    "ON ERROR GOTO {A}\nx% = 1 \\ z%\nPRINT 1\nEND\n{A:}PRINT 2\nRESUME NEXT\n",
+    "i = 0\n{A:}i = i + 1\nPRINT i\nIF i < 3 THEN GOTO {A}\nGOTO {C}\n{B:}PRINT 9\n{C:}PRINT 8\n",
+    "zs\nEND\nSUB zs\nGOTO {A}\nPRINT 1\n{A:}PRINT 2\nGOSUB {B}\nEXIT SUB\n{B:}PRINT 3\nRETURN\nEND SUB\n",
+    "{A:}x = x + 1\n{B:}PRINT x\n{C:}IF x < 3 THEN GOTO {A}\n",
+    "GOSUB {A}\nGOSUB {B}\nEND\n{A:}PRINT 1\n{B:}PRINT 2\nRETURN\n",
+    "FOR i = 1 TO 3\nGOSUB {A}\nNEXT\nEND\n{A:}IF i = 2 THEN RETURN {B}\nPRINT i\nRETURN\n{B:}PRINT 99\n",
+]
+LABEL_NUMS = ['0', '1', '5', '10', '99', '100', '1000', '32768', '65529', '007']
+LABEL_NAMES = ['a', 'zq', 'x9', 'label1', 'FooBar', 'zlabel9z', 'L', 'zZ', 'o0']   # dotted label names are not supported by qbee's grammar
+
+
+def inst_labels(tpl, names):
+    t = tpl
+    for k, nm in names.items():
+        t = t.replace('{' + k + ':}', (nm + ' ') if nm.isdigit() else (nm + ': '))
+        t = t.replace('{' + k + '}', nm)
+    import re as _re
+    return _re.sub(r'\{[ABC]:\}', '', t)
+
+
+def run_label_case(case):
+    r = random.Random(case['vseed'])
+    tpl = LABEL_TEMPLATES[case['t']]
+    base_names = {'A': 'zla', 'B': 'zlb', 'C': 'zlc'}
+    text = inst_labels(tpl, base_names)
+    st = {'variants_compared': 0, 'variants_textually_different': 0, 'sections_equal': 0,
+          'sections_differ_behaviour_equal': 0, 'rejected_both': 0, 'rules_used': ['labels'], 'label_namings': 0}
+    viol = []
+    namings = []
+    for v in range(case['nvar']):
+        pool = LABEL_NUMS + LABEL_NAMES
+        if v == 0:
+            pick = ['0', '5', '9']
+        elif v == 1:
+            pick = ['7', '0', 'a']
+        elif v == 2:
+            pick = ['a', 'b', '0']
+        else:
+            pick = r.sample(pool, 3)
+        if len({int(p) if p.isdigit() else p.lower() for p in pick}) < 3:
+            continue
+        if 'ON ERROR GOTO {A}' in tpl and pick[0].isdigit() and int(pick[0]) == 0:
+            pick[0] = '3'       # ON ERROR GOTO 0 means "handler off", whatever line 0 is
+        namings.append(dict(zip('ABC', pick)))
+    for cfg in ((0, False), (1, True), (2, False)):
+        base = diff.observe(text, cfg, {}, max_ticks=20000)
+        for nm in namings:
+            vt = inst_labels(tpl, nm)
+            st['variants_compared'] += 1
+            st['variants_textually_different'] += 1
+            st['label_namings'] += 1
+            o = diff.observe(vt, cfg, {}, max_ticks=20000)
+            tag = 'numeric0' if '0' in nm.values() else 'other'
+            if o['brief'][:2] != base['brief'][:2]:
+                viol.append(V(f"C14:labels:acceptance:{base['brief'][0]}->{o['brief'][0]}:{tag}",
+                              f"names {nm}: original {base['brief']} vs variant {o['brief']}", original=text, variant=vt,
+                              msg2=o.get('msg')))
+                continue
+            if base['status'] != 'ok':
+                st['rejected_both'] += 1
+                continue
+            d = diff.cmp_runs(base, o)
+            if d:
+                viol.append(V(f"C14:labels:behaviour:{tag}", f'names {nm}: {d}', original=text, variant=vt))
+            elif all(base['sections'].get(s_) == o['sections'].get(s_) for s_ in (1, 2, 3, 4)):
+                st['sections_equal'] += 1
+            else:
+                st['sections_differ_behaviour_equal'] += 1
+    return {'viol': viol, 'stats': st, 'shape': f'labels{case["t"]}', 'nontrivial': True,
+            'sample': {'original': text[:200], 'variant': inst_labels(tpl, namings[0])[:200], 'rules': ['labels']}}
+
+
 def gen_cases(tier, seed):
     n = 70 if tier == 'quick' else 900
     cs = gen_cases_corpus(n, seed, opts={'max_stmts': 8}, with_repo=True)
     for i, c in enumerate(cs):
         c['nvar'] = 3 if tier == 'quick' else 8
         c['vseed'] = seed * 977 + i
+    for t in range(len(LABEL_TEMPLATES)):
+        cs.append({'kind': 'labels', 't': t, 'nvar': 8 if tier == 'quick' else 60, 'vseed': seed * 31 + t})
     return cs
 
 
 def run_case(case):
+    if case.get('kind') == 'labels':
+        return run_label_case(case)
     text, script, meta = cases.source_of(case)
     r = random.Random(case['vseed'])
     variants = []
